@@ -4,7 +4,7 @@ import json
 
 import common
 
-FAMILY_MODULE = {"lexer": "fam_lexer", "simple": "fam_simple", "parser": "fam_parser"}
+FAMILY_MODULE = {"lexer": "fam_lexer", "simple": "fam_simple", "parser": "fam_parser", "grammar": "fam_grammar"}
 
 
 def main(path):
@@ -15,7 +15,7 @@ def main(path):
     if fam not in FAMILY_MODULE:
         raise common.Infra("unknown replay family %r" % fam)
     mod = importlib.import_module(FAMILY_MODULE[fam])
-    still = mod.replay(case)
+    still = (mod.replay_case if hasattr(mod, "replay_case") else mod.replay)(case)
     if still:
         print("VIOLATION property=%s replay=%s" % (case["property"], path))
         print("  reproduced:", still)
